@@ -18,7 +18,8 @@ PROPS = {
  },
  "C02": {
   "props_modules": ["Ps3.Props.C02"],
-  "streams": [{"name": "c02", "bad_obs": BAD_OBS}, {"name": "c10", "bad_obs": BAD_OBS}, {"name": "c13"}],
+  "race_always": True,
+  "streams": [{"name": "c02", "bad_obs": BAD_OBS}, {"name": "c10", "bad_obs": BAD_OBS}, {"name": "c13"}, {"name": "c12", "bad_obs": BAD_OBS}],
   "rule": "files of boundary sizes (0,1,2047..2049,65535..65537,…, sparse files past 4 GiB with marker bytes) x OPEN_FILE then 1-6 READ_FILE / READ_FILE_CRITICAL with (offset,limit) from structural boundaries incl. offset>=size, limit 0, crossing EOF, interleaved with other requests; "
           "oracle = the harness's own copy of the content; distinct = (size, request list); the third kind of served object, the decrypting view, is covered by running the c10 stream here as well (aligned and unaligned reads of encrypted images against the crypto/aes reference); "
           "'a read that cannot be satisfied ends the connection after at most a correct prefix' is exercised under I/O faults by running the c13 stream here too (a fault at every filesystem operation of sessions over plain files, generated and encrypted images: never altered or unannounced bytes)",
@@ -33,7 +34,8 @@ PROPS = {
  },
  "C05": {
   "props_modules": ["Ps3.Props.C05"],
-  "streams": [{"name": "c05", "bad_obs": BAD_OBS}],
+  "race_always": True,
+  "streams": [{"name": "c05", "bad_obs": BAD_OBS}, {"name": "c12", "bad_obs": BAD_OBS}],
   "rule": "read-only servers bombarded with mutating requests (full before/after snapshot of the root: names, kinds, sizes, content hashes, mtimes) and write-enabled upload sessions (CREATE new/existing/nested/virtual/impossible targets, 0-4 WRITE chunks of 0..140000 bytes, read back through the server, MKDIR/RMDIR/DELETE incl. wrong-kind targets); distinct = session",
   "assumptions": _CONN_ASSUME + ["the switch itself (flag/env/ini) is C19's"],
  },
@@ -152,7 +154,7 @@ PROPS = {
  },
  "C17": {
   "props_modules": ["Ps3.Props.C17"],
-  "streams": [{"name": "c17", "bad_obs": BAD_OBS}],
+  "streams": [{"name": "c17", "bad_obs": BAD_OBS}, {"name": "c13"}],
   "rule": "sparse raw CD images for all 7 sector sizes x both signatures, sizes at/around the 2 MiB and 848 MiB window edges, no signature; several images re-opened on one connection; (start,count) incl. start != count, count 0, and a final range crossing EOF; oracle = user-data slices of the synthesised image",
   "assumptions": _CONN_ASSUME,
  },
